@@ -179,3 +179,38 @@ func HarnessC06NoGlobal() { c06scenarioX(2, false, false, false, false) }
 // HarnessC06UnregisterShutdown: a slow callback, an unregistration and the watcher's Done race:
 // whenever unregister returned true the callback is not invoked again.
 func HarnessC06UnregisterShutdown() { c06scenarioX(2, true, false, false, true) }
+
+// HarnessC06DrainOnCancel: versions whose announcements are already queued when the Config
+// context is cancelled are still delivered (a slow callback is running meanwhile): cancelling is
+// not a reason to skip an installed version that the callback goroutine has been handed.
+func HarnessC06DrainOnCancel() {
+	verifyLog = nil
+	log := &cbLog{}
+	def := hcfg{}
+	src := &hwsrc{hsrc{name: "s0", init: hval{setA: true, a: 0}}}
+	ctx, cancel := context.WithCancel(context.Background())
+	defer cancel()
+	p := log.params()
+	p.DelayInitialVerification = true // makes EnableVerification a round trip through the monitor
+	d, err := p.Config(ctx, &def, src)
+	if err != nil {
+		zzverif.Fail("C04 Config failed on a valid stack")
+		return
+	}
+	const k = 2
+	for i := 1; i <= k; i++ {
+		e := src.wa.BlockingReportNewValue(ctx, mkValue(src.t, hval{setA: true, a: int64(i)}))
+		zzverif.Assert(e == nil, "C08 a blocking report failed with a live context")
+	}
+	// barrier: when this returns the monitor has finished the iteration that installed version k,
+	// so its announcement is in the callback queue
+	_, _, eerr := d.EnableVerification(ctx)
+	zzverif.Assert(eerr == nil, "C09 EnableVerification failed on a valid config")
+	cancel()
+	zzverif.Quiesce()
+	zzverif.Assert(len(log.newCfg) == k, "C06 an installed version whose announcement was already queued was skipped when the Config context was cancelled")
+	for i, n := range log.newCfg {
+		zzverif.Assert(n.new.A == int64(i+1) && n.old.A == int64(i), "C06 OnNewConfig calls are not in installation order with (predecessor, new)")
+	}
+	zzverif.Reached("c06-drain-end")
+}
